@@ -155,9 +155,6 @@ func c12Workload(c *Ctx, fam *report.Family, r *rng.R, nCfg, rounds int) error {
 			}
 		}
 	}
-	// many packagings of ONE format at once (a release tool building every architecture of a package): far more than
-	// there are processors – a bound on concurrency inside a packager must not turn into a wait for itself
-	c12ManyOfOneFormat(c, fam, tree, scripts)
 	// signed packages with different keys and key ids; one large file per package
 	c12Signed(c, fam, tree, 3*rounds)
 	c12LargePayload(c, fam, (rounds+3)/4)
@@ -239,6 +236,10 @@ func c12Workload(c *Ctx, fam *report.Family, r *rng.R, nCfg, rounds int) error {
 			fam.Sample(map[string]any{"yaml": y})
 		}
 	}
+	// many packagings of ONE format at once (a release tool building every architecture of a package): far more than
+	// there are processors – a bound on concurrency inside a packager must not turn into a wait for itself. Last, because
+	// packagings that never come back stay behind and may hold whatever they wait on.
+	c12ManyOfOneFormat(c, fam, tree, scripts)
 	return nil
 }
 
